@@ -301,8 +301,13 @@ func runC08(c *Ctx) {
 		scheds := schedulesFor(c, doc, idx)
 		for i, k := range ks {
 			e := e1
-			if i%2 == 1 {
+			switch (i + idx) % 4 {
+			case 1:
 				e = e2
+			case 2:
+				e = io.ErrUnexpectedEOF // what truncated gzip / HTTP bodies return
+			case 3:
+				e = io.ErrClosedPipe
 			}
 			s := scheds[(i+idx)%len(scheds)]
 			c.Res.Evals++
@@ -551,6 +556,13 @@ func runC09(c *Ctx) {
 	}
 	for i, d := range corpusDocs() {
 		one(i, "corpus", d, true)
+	}
+	for i := 0; i < c.N(8000, 200000); i++ {
+		d := genInlineRich(newRng(c.Seed, "c09-rich", i), false)
+		if bytes.ContainsAny(d, "\t\r\x00") {
+			continue
+		}
+		one(i, "inline-rich", d, false)
 	}
 	n := c.N(40000, 800000)
 	for i := 0; i < n; i++ {
